@@ -514,9 +514,12 @@ def oracle_dyn(case, rec):
         if d:
             rec.fail('history-dependent:%s' % fn, 'result differs from the same call made in a fresh process state: ' + d)
         rec.tag('fresh-state-oracle:compared')
-    # determinism
+    # determinism - the second call is made after NumPy's small-block free lists were filled with a
+    # different value, so that reading uninitialised memory (np.empty used as np.zeros) shows
     n1 = len(rec.violations)
+    lib.poison(1e300 if case.get('i', 0) % 2 else -1e300)
     out2, _, _, _ = _invoke(rec, fn, f, case, 'C')
+    lib.poison(0.0)
     del rec.violations[n1:]
     if (out2 is FAILED) != failed_base:
         rec.fail('nondeterministic:%s' % fn, 'raises on one of two identical calls')
